@@ -42,3 +42,43 @@ def run(ctx):
         delegates_to(ctx, "K2-hook-body", rec, ["plugins::memberof::apply_memberof"], "apply_memberof",
                      "the hook can succeed without running the memberOf fix-point")
     hook_nontrivial(ctx, "K2-hook-body", "memberof", PLUGIN, "pre_delete")
+    writeback_detects_every_recomputed_attribute(ctx)
+
+
+# ---------------------------------------------------------------------------------------------------------------------
+# The plugin recomputes memberof AND directmemberof on a working copy and writes the copy back only "if a change
+# occurred". The change test must look at every attribute it recomputed: an attribute that is cleared and rebuilt but
+# not compared keeps its stale stored value whenever the others happen to be unchanged.
+# (added after seeded change C17: the leaf write-back compared memberof only; a member reachable both directly and through
+# a nested group kept a stale directmemberof when its direct link was removed)
+
+def writeback_detects_every_recomputed_attribute(ctx):
+    from .lib.hir import walk, unwrap, tokens
+    R = "K4-writeback-compares-recomputed"
+    LIBC = "kanidmd_lib"
+    f = ctx.fn(LIBC, "kanidmd_lib::plugins::memberof::do_leaf_memberof")
+    A = "kanidm_proto::attribute::Attribute::"
+    recomputed = set()
+    for n in walk(f["body"]):
+        if n.get("e") == "mcall" and n.get("name") in ("purge_ava", "set_ava_set", "get_ava_refer_mut", "pop_ava") and not n.get("exp"):
+            for t in tokens({"a": n.get("args", [])}):
+                if t.startswith("def:" + A):
+                    recomputed.add(t[len("def:" + A):])
+    recomputed.discard("Class")
+    ctx.floor(R, "attributes recomputed by do_leaf_memberof", len(recomputed), 2)
+    # the `if` that guards pushing the (pre, post) pair to the change list
+    guards = []
+    for n in walk(f["body"]):
+        if n.get("e") == "if" and any(c.get("e") == "mcall" and c.get("name") == "push" and not c.get("exp") for c in walk(n["then"])):
+            guards.append(n)
+    if not ctx.check(len(guards) >= 1, R, f["fn"], "writeback-guard-found", "if <changed> { changes.push(..) }",
+                     "no change test guarding the write-back was found (shape not understood)", file=f["file"], line=f["line"]):
+        return
+    for g in guards:
+        compared = {t[len("def:" + A):] for t in tokens(g["cond"]) if t.startswith("def:" + A)}
+        missing = sorted(recomputed - compared)
+        ctx.check(not missing, R, f["fn"], "compares:" + ",".join(sorted(recomputed)),
+                  f"the change test looks at {sorted(compared)}",
+                  f"do_leaf_memberof rebuilds {sorted(recomputed)} on every affected entry but decides whether to write the entry back by comparing only "
+                  f"{sorted(compared)}: when {missing} changes alone (e.g. a direct membership is removed while the group is still reached through a nested "
+                  "group) the stale stored value is kept, and no later operation repairs it", file=f["file"], line=g.get("line"))
